@@ -27,6 +27,9 @@ for i in ids:
     if i not in CLAIMED:
         continue
     c = CLAIMED[i]
+    if i in ("C01", "C02", "C03", "C11", "C12", "C14"):
+        c = dict(c)
+        c["technique"] += "; the thorough tier adds coverage-guided libFuzzer campaigns (cargo-fuzz targets in harness/fuzz) behind the same oracle functions, with artifacts re-classified in-process"
     checks.append({
         "property_id": i,
         "quick_cmd": f"./check {i} --tier quick",
@@ -51,7 +54,7 @@ m = {
     },
     "engines": [
         {"name": "oq3v", "path": "harness", "serves_properties": list(CLAIMED.keys()),
-         "kind_free_text": "Rust binary: proptest-driven choice-sequence generators with shrinking, bounded-exhaustive enumerators, reference models and abstraction functions, known-findings protocol, evidence writer"},
+         "kind_free_text": "Rust library + binary: proptest-driven choice-sequence generators with shrinking, bounded-exhaustive enumerators, reference models and abstraction functions, libFuzzer campaigns (thorough tier) with in-process artifact triage, known-findings protocol, evidence writer"},
     ],
     "checks": checks,
     "notes": "Exit codes: 0 held, 1 violation (VIOLATION line + replay file), 2 inconclusive (build failure, watchdog, memory limit). Known findings: known_findings.json (committed, read-only at run time).",
